@@ -260,7 +260,7 @@ pub fn run(opts: &Opts) -> Report {
          seeded random: longer texts with whitespace, up to 12 known selections (nested, crossing, adjacent, zero-width, touching the end, both halves), reference sets of 1-3; \
          non-trivial = the expected result is non-empty; distinct = distinct (text, known set, reference set, operator)",
     );
-    let ops = all_ops(&[None, Some(0), Some(2)]);
+    let ops = all_ops(&[None, Some(0), Some(2), Some(usize::MAX)]);
     let mut rng = Rng::new(opts.seed);
     // ---------- exhaustive part ----------
     let n = if opts.thorough() { 5 } else { 4 };
